@@ -175,6 +175,9 @@ def nodupL (l : List Bytes) : Bool :=
 
 def hypsB (K : Bytes) (db : DB) (t : Tape) (absent : List Bytes) : Bool :=
   (t.all fun d => match d with | .bytes b => !(b.length == 16 && allZero b) | _ => true) &&
+  -- C05 (`CT14.shape`): identifiers of the configured size; no dummy keyword repeats a keyword or another dummy
+  db.all (fun p => p.2.all fun x => x.length == cfg.idSize.toNat) &&
+  nodupL (db.map (·.1) ++ draws32 t) &&
   (match padLoop cfg.idSize.toNat (2 ^ clog2 db.total) (2 ^ clog2 db.total + 1) db db.total t with
    | .ok (pdb, _) => db.all (fun p => pdb.contains p)
    | .error _ => false) &&
